@@ -30,18 +30,21 @@ claim("C01", "other",
       "LinearScaledUnit::ratio, HasRefUnit::equiv_amount and ::convert (generic bodies) are compared with the specification over the truth table of "
       "their guards — same-unit branch is the untouched amount (no arithmetic node), converted branch is amount*s_from/s_to as a rational function, "
       "convert stores exactly equiv_amount's result and the requested unit; record axioms amount(new(a,u))=a, unit(new(a,u))=u for every generated "
-      "type in both back-ends; no impl overrides the analysed defaults; scale tables total and positive.",
+      "type in both back-ends; no impl overrides the analysed defaults; scale tables total and positive. Decimal back-end: forward error analysis of the conversion term for every "
+      "ordered unit pair of every reference-unit type (amount-free sub-trees folded as fpdec computes them; effective coefficient vs exact scale ratio, 1e-18 relative). Found and fixed a "
+      "genuine defect: conversion to a larger unit lost up to 14 digits (known_findings.json).",
       VF_NOTE, "gated value-flow summaries over THIR + exact-tree / rational-function normal forms (static)", "DESIGN.md §4 C01")
 claim("C02", "other",
       "Summaries of HasRefUnit::eq / partial_cmp for (a,b) and (b,a) over the finite case split {same unit; s_a<s_b; s_a=s_b, units differ; s_a>s_b}: "
       "both operand orders must compare the same two rounded operand trees (order independence, exact), each side being the magnitude in one common "
       "unit (rational function), at most one converted side, bare amount comparison under equal units, eq and partial_cmp on the same pair; every "
-      "generated PartialEq/PartialOrd impl forwards to these bodies and provides nothing else. Found and fixed a genuine defect (see known_findings.json).",
+      "generated PartialEq/PartialOrd impl forwards to these bodies and provides nothing else; decimal back-end: the conversion each case applies scales by the exact ratio to 1e-18 for every "
+      "ordered unit pair. Found and fixed a genuine defect (see known_findings.json).",
       VF_NOTE + " NaN excluded by the property.", "gated value-flow summaries + finite order domain for the guards (static)", "DESIGN.md §4 C02, §7.1")
 claim("C03", "other",
       "Value-flow forms of HasRefUnit::add/sub/div with the conversion inlined: result unit slot is exactly the left operand's unit, amount is "
       "a ± b*s_b/s_a resp. (a*s_a)/(b*s_b) as rational function, the bare operation under equal units; every generated Add/Sub/Div<Self> of every "
-      "reference-unit type forwards its operands in order to these bodies and has the specified Output type.",
+      "reference-unit type forwards its operands in order to these bodies and has the specified Output type; decimal back-end: coefficient accuracy of +, -, / for every ordered unit pair (1e-18).",
       VF_NOTE, "gated value-flow summaries + who-calls on resolved callees (static)", "DESIGN.md §4 C03")
 claim("C08", "other",
       "Record axioms of every generated new/amount/unit by composition; the five scalar/unit operator bodies of every quantity type are exact "
@@ -53,15 +56,17 @@ claim("C10", "other",
       "neither HasRefUnit nor LinearScaledUnit; single-unit types do plain amount arithmetic.",
       VF_NOTE, "gated value-flow summaries incl. diverging branch + who-calls (static)", "DESIGN.md §4 C10")
 claim("C16", "proof",
-      "The four 25-row tables, the discriminants and both lookup functions are extracted as constant tables; from_abbr / from_exp are match tables over "
-      "literals and therefore decided for ALL strings and all 256 i8 values; compared with the SI brochure table; iteration order from VARIANTS.",
-      "Trusted: rustc match semantics, oracle/si_prefixes.json, core::slice::Iter order.", "constant/match-table extraction + oracle comparison (static, exhaustive)",
+      "The four 25-row tables and the discriminants are extracted as constant tables and compared with the SI brochure table; the gated summary of from_exp is evaluated for each of the 256 "
+      "i8 values (integer semantics with overflow checks: hit -> that prefix, miss -> None, never a panic), from_abbr tests its argument only by equality with literals and is decided on "
+      "{each literal} + {any other string}; iteration order from VARIANTS.",
+      "Trusted: rustc match semantics, oracle/si_prefixes.json, core::slice::Iter order.", "constant-table extraction + exhaustive evaluation of the lookup summaries + oracle comparison (static, exhaustive)",
       "DESIGN.md §4 C16")
 
 claim("C04", "other",
       "One value-flow obligation per generated Mul/Div between quantity types (catalogue 34, astronomical 4, fixtures 8; both back-ends): combined scale uses the impl's "
       "own operator, natural-unit branch stores exactly a⊗b with the looked-up unit, fallback passes (a⊗b)·σ (rational function) to the RESULT type's _fit; generic _fit "
-      "returns new(x/scale(u), u) with one u; three reference forms per operator forward the dereferenced operands in order to the by-value impl (resolved callee).",
+      "returns new(x/scale(u), u) with one u; three reference forms per operator forward the dereferenced operands in order to the by-value impl (resolved callee); decimal back-end: "
+      "for every unit pair a rounded scale combination never coincides spuriously with a result unit's scale.",
       VF_NOTE, "gated value-flow summaries per generated impl + resolved who-calls (static)", "DESIGN.md §4 C04")
 claim("C05", "other",
       "_fit uses the amount only in comparisons (checked structurally), so selection is a function on a finite order partition: the extracted selection model "
@@ -79,10 +84,10 @@ claim("C06", "proof",
 claim("C09", "proof",
       "Per unit enum of every macro instance (both back-ends): VARIANTS folded and compared with the order computed from the un-expanded declaration by exact rationals "
       "(permutation, non-decreasing scale, reference unit first among scale-one units, declaration order for ties / name order); Unit::iter reads its own VARIANTS; one public "
-      "upper-snake constant per unit; lookups are iter().find(key(unit)==arg) with the specified key (closure bodies summarised), not overridden; REF_UNIT, is_ref_unit, as_qty forms; "
-      "symbol round trip evaluated on every table.",
+      "upper-snake constant per unit; the four lookups use their key in comparisons only and their gated summaries are evaluated on every type's table for every key class "
+      "(each symbol / scale, empty string, unused key, cells between scales, NaN) against 'first unit in iteration order carrying the key, else None'; not overridden; REF_UNIT, is_ref_unit, as_qty forms.",
       "Trusted: rustc THIR construction; std contracts of <[T]>::iter, Iterator::cloned, Iterator::find.",
-      "constant-table extraction + declaration agreement + value-flow forms of the lookups (static, exhaustive)", "DESIGN.md §4 C09")
+      "constant-table extraction + declaration agreement + lookup summaries evaluated over the finite key partition (static, exhaustive)", "DESIGN.md §4 C09")
 
 claim("C13", "other",
       "Rate is a four-field record (axioms by composing the extracted new/accessor bodies); reciprocal swaps the pairs and is an involution by rewriting; Rate*q (generic body), and "
@@ -110,7 +115,7 @@ claim("C17", "other",
 claim("C18", "other",
       "Complete inventory of panic-capable sites (Assert terminators, diverging calls, unwrap/expect/index vocabulary, unvetted std callees) in the MIR of every library body in both back-ends "
       "= the three documented mixed-unit panics + one Option::unwrap in _fit; the documented panics are unreachable from reference-unit types (resolved call graph); the unwrap is discharged for "
-      "every result type and every cell from the extracted tables. Decimal back-end: magnitude-bound analysis (exact rational vertex enumeration over the polygon of admissible amounts) of every "
+      "every result type and every cell from the extracted tables (f64: incl. NaN and +-infinity magnitudes). Decimal back-end: magnitude-bound analysis (exact rational vertex enumeration over the polygon of admissible amounts) of every "
       "arithmetic node of every derived operator x unit pair and of convert/==/partial_cmp/+/-// of every reference-unit type x ordered unit pair: every intermediate stays below 2^127/10^18 "
       "whenever the property's named magnitudes lie in [1e-15, 1e17]. Found and fixed a genuine overflow defect (known_findings.json). NOT decided: decimal range of rate operations and of "
       "formatting (no named magnitudes bound their intermediates).",
